@@ -31,6 +31,16 @@ PROJECT = {
     'maybe.ucg': 'let q = 10 / %s;\nout flags {q = q};\n' % P(5),
     'noout.ucg': 'let l = import "lib.ucg";\nlet z = l.x;\n',
 }
+# a library reached through symbolic links from two directories, each next to its own settings file
+LINKED = {
+    'shared/service.ucg': 'let s = import "./settings.ucg";\nlet name = s.name;\n',
+    'staging/settings.ucg': 'let name = %s;\n' % P(6),
+    'prod/settings.ucg': 'let name = %s;\n' % P(7),
+    'staging/deploy.ucg': 'let svc = import "./service.ucg";\nout flags {name = svc.name};\n',
+    'prod/deploy.ucg': 'let svc = import "./service.ucg";\nout env {NAME = svc.name};\n',
+    'shared/settings.ucg': 'let name = 0;\n',
+}
+LINKS = {'/cwd/staging/service.ucg': '/cwd/shared/service.ucg', '/cwd/prod/service.ucg': '/cwd/shared/service.ucg'}
 ENTRY = ['a.ucg', 'b.ucg', 'c.ucg', 'libout.ucg', 'fail.ucg', 'maybe.ucg', 'noout.ucg', 'lib.ucg']
 
 
@@ -46,6 +56,8 @@ def cases(tier):
         trip = list(itertools.permutations(['a.ucg', 'b.ucg', 'libout.ucg'], 3)) + list(itertools.permutations(['c.ucg', 'fail.ucg', 'maybe.ucg'], 3)) + trip
     for t in trip:
         cs.append({'batch': list(t)})
+    for p in (('staging/deploy.ucg', 'prod/deploy.ucg'), ('prod/deploy.ucg', 'staging/deploy.ucg'), ('staging/deploy.ucg', 'staging/deploy.ucg')):
+        cs.append({'batch': list(p), 'linked': True})
     return cs
 
 
@@ -80,9 +92,13 @@ def run_batch(ctx, prog, batch):
 def harness(ctx, case):
     prog = ctx.prog
     ucgrun.install_parse_override(prog)
-    for n, t in PROJECT.items():
+    files = dict(PROJECT)
+    if case.get('linked'):
+        files.update(LINKED)
+        ctx.links = dict(LINKS)
+    for n, t in files.items():
         ctx.fs['/cwd/' + n] = t
-    ints = {i: ctx.bv('a%d' % i, 64) for i in range(1, 6)}
+    ints = {i: ctx.bv('a%d' % i, 64) for i in range(1, 8)}
     ctx.parse_subst = {'ints': ints}
     out = {'reached': True, 'asserts': 0, 'violations': []}
     batch = case['batch']
@@ -95,11 +111,16 @@ def harness(ctx, case):
         alone[f] = (s1[0], e1)
 
     def report(key, what, f, pos):
-        m = ctx.model()
-        files = {n: SP.render_text(t, m, ctx, ints) for n, t in PROJECT.items()}
+        # prefer a model in which the symbolic leaves are pairwise different (equal leaves can hide a mix-up of files)
+        dist = z3.Distinct(*ints.values())
+        m = ctx.model(dist) if ctx.feasible(dist) else ctx.model()
+        fsrc = dict(PROJECT)
+        if case.get('linked'):
+            fsrc.update(LINKED)
+        files = {n: SP.render_text(t, m, ctx, ints) for n, t in fsrc.items()}
         role = 'after:' + ','.join(batch[:pos]) if pos else 'first'
         out['violations'].append({'key': 'C16:%s:%s:%s' % (key, f, role), 'what': what + ' — batch `ucg build %s`' % ' '.join(batch),
-                                  'case': {'kind': 'cli-batch', 'files': files, 'batch': batch, 'file': f}, 'kind': key})
+                                  'case': {'kind': 'cli-batch', 'files': files, 'batch': batch, 'file': f, 'links': LINKS if case.get('linked') else {}}, 'kind': key})
 
     # observable state after the batch: path -> content of the last write
     final = {}
@@ -134,29 +155,34 @@ def harness(ctx, case):
     return out
 
 
-def native_build(fw, files, batch):
+def native_build(fw, files, batch, links=None):
     with tempfile.TemporaryDirectory(prefix='ucg-verif-c16-') as d:
         os.makedirs(os.path.join(d, 'sub'))
         for n, t in files.items():
+            os.makedirs(os.path.dirname(os.path.join(d, n)), exist_ok=True)
             open(os.path.join(d, n), 'w').write(t)
+        for l, tgt in (links or {}).items():
+            lp = os.path.join(d, l[len('/cwd/'):])
+            os.symlink(os.path.relpath(os.path.join(d, tgt[len('/cwd/'):]), os.path.dirname(lp)), lp)
         r = fw.native().cli(['build'] + batch, d)
         arts = {}
-        for n in sorted(os.listdir(d)):
-            if not n.endswith('.ucg') and os.path.isfile(os.path.join(d, n)):
-                arts[n] = open(os.path.join(d, n)).read()
+        for dp, _, fs in os.walk(d):
+            for n in sorted(fs):
+                if not n.endswith('.ucg'):
+                    arts[os.path.relpath(os.path.join(dp, n), d)] = open(os.path.join(dp, n)).read()
     fw.replayed += 1
     return r, arts
 
 
 def judge(fw, v):
     c = v['case']
-    rb, ab = native_build(fw, c['files'], c['batch'])
+    rb, ab = native_build(fw, c['files'], c['batch'], c.get('links'))
     # alone runs for every file of the batch
     exp_rc = 0
     exp_art = {}
     per = {}
     for f in c['batch']:
-        r1, a1 = native_build(fw, c['files'], [f])
+        r1, a1 = native_build(fw, c['files'], [f], c.get('links'))
         per[f] = (r1['rc'], a1)
         if r1['rc'] != 0:
             exp_rc = 1
